@@ -30,6 +30,7 @@ type Engine struct {
 	timeoutS  int
 	verbose   bool
 	assumptions map[string]bool
+	errGlobals  map[string]bool // G$pkg.Name of interface-typed globals initialised once to a fresh non-nil value
 }
 
 func loadEngine(repo string, patterns []string, tags string) (*Engine, error) {
@@ -100,6 +101,7 @@ func loadEngine(repo string, patterns []string, tags string) (*Engine, error) {
 			}
 		}
 	}
+	e.scanErrGlobals()
 	return e, nil
 }
 
@@ -404,4 +406,60 @@ func (e *Engine) allProperties() []string {
 	}
 	sort.Strings(out)
 	return out
+}
+
+// scanErrGlobals finds package-level interface variables that `init` sets to a freshly allocated value
+// (errors.New, fmt.Errorf, &T{...}) and that no other function of the module assigns.
+func (e *Engine) scanErrGlobals() {
+	e.errGlobals = map[string]bool{}
+	cand := map[*ssa.Global]bool{}
+	for _, sp := range e.spkgs {
+		init := sp.Func("init")
+		if init == nil {
+			continue
+		}
+		for _, b := range init.Blocks {
+			for _, in := range b.Instrs {
+				st, ok := in.(*ssa.Store)
+				if !ok {
+					continue
+				}
+				g, ok := st.Addr.(*ssa.Global)
+				if !ok {
+					continue
+				}
+				if _, isIface := g.Type().Underlying().(*types.Pointer).Elem().Underlying().(*types.Interface); !isIface {
+					continue
+				}
+				switch v := st.Val.(type) {
+				case *ssa.Call:
+					if f := v.Common().StaticCallee(); f != nil && (f.String() == "errors.New" || f.String() == "fmt.Errorf") {
+						cand[g] = true
+					}
+				case *ssa.MakeInterface:
+					if _, ok := v.X.(*ssa.Alloc); ok {
+						cand[g] = true
+					}
+				}
+			}
+		}
+	}
+	// disqualify globals stored to outside init
+	for _, fn := range e.funcs {
+		if fn.Synthetic != "" && fn.Name() == "init" {
+			continue
+		}
+		for _, b := range fn.Blocks {
+			for _, in := range b.Instrs {
+				if st, ok := in.(*ssa.Store); ok {
+					if g, ok := st.Addr.(*ssa.Global); ok {
+						delete(cand, g)
+					}
+				}
+			}
+		}
+	}
+	for g := range cand {
+		e.errGlobals["G$"+sanitize(g.Pkg.Pkg.Name()+"."+g.Name())] = true
+	}
 }
